@@ -85,8 +85,8 @@ theorem imap_values {α β} (f : α → β) (data : List α) (k : Nat) (hk : 0 <
     exact (WindVerif.Pool.yielded_unordered f data k hk (curOut s) hperm).1
 
 /-- non-vacuity: the consumer-first schedule that exposed D15 on the unrepaired code reaches the loop with the flags set -/
-example : ((run (init ⟨1, none, none, false, none, false, [⟨1, true⟩], [], [], false⟩) [.c, .c, .c, .c, .c, .c]).map
+example : ((run (init ⟨1, none, none, false, none, false, [⟨1, true⟩], [], [], false, false⟩) [.c, .c, .c, .c, .c, .c]).map
     (fun s => (s.sending, s.dataCnt, s.cpc))) = some (true, 0, .qsize1) := by decide
-example : NoFaults ⟨1, none, none, false, none, false, [⟨1, true⟩], [], [], false⟩ := by unfold NoFaults; decide
+example : NoFaults ⟨1, none, none, false, none, false, [⟨1, true⟩], [], [], false, false⟩ := by unfold NoFaults; decide
 
 end WindVerif.C01
